@@ -442,3 +442,25 @@ pub fn foreign_csrs(zoo: &[ZooKey]) -> Vec<(String, Vec<u8>, bool)> {
     v.push(("csr extensionRequest with empty value set".into(), sign(RefCsr { subject: subj, spki: z.spki.clone(), attrs: vec![(OID_EXT_REQ.to_vec(), tlv(0x31, &[]))] }.cri()), false));
     v
 }
+
+/// Object identifiers for the generation / parse-back sweeps: every value of the first subidentifier octet (arcs 0.0..0.39,
+/// 1.0..1.39, 2.0..2.47), second arcs of joint-iso-itu-t beyond one octet and at the base-128 boundaries, and later arcs at
+/// those boundaries.
+pub fn first_octet_oids() -> Vec<Vec<u64>> {
+    let mut oids: Vec<Vec<u64>> = Vec::new();
+    for b in 0..=39u64 {
+        oids.push(vec![0, b, 5]);
+        oids.push(vec![1, b, 5]);
+    }
+    for b in (0..=300u64).chain([16303, 16304, 2097071, 2097072, 4294967295, 4294967296, u64::MAX - 80]) {
+        oids.push(vec![2, b, 5]);
+        oids.push(vec![2, b]);
+    }
+    for t in [0u64, 1, 127, 128, 16383, 16384, 2097151, 2097152, 4294967295, 4294967296, u64::MAX] {
+        oids.push(vec![1, 3, 6, 1, 4, 1, 55555, t]);
+        oids.push(vec![2, 47, t, 1]);
+    }
+    // the six attribute types with an own variant read back as that variant, not as a custom type
+    oids.retain(|o| !(o.len() == 3 && o[0] == 2 && o[1] == 5 && o[2] == 4));
+    oids
+}
